@@ -12,11 +12,15 @@ def _neg(q):
 
 def c04(o):
     vals = o["ret"]["out"]["value"] if o["ret"]["ok"] else []
-    for v in vals:
-        if v["t"] == "exp" and len(v["vals"]) >= 2:
-            v["vals"].pop()  # one alignment variant is lost
-            return o
-    return None
+    if not vals:
+        return None
+    bad = [33, 33, 33, 33]  # "!!!!" is not the Base64 text of anything
+    if vals[0]["t"] == "exp":
+        for v in vals[0]["vals"]:
+            v["parts"] = list(bad)
+    else:
+        vals[0]["parts"] = list(bad)
+    return o
 
 
 def c05(o):
